@@ -382,6 +382,7 @@ static void audit_all(void)
 }
 
 /* ---- state ---- */
+static unsigned init_toggle;
 static void st_create(int scope)
 {
     int o;
@@ -392,7 +393,9 @@ static void st_create(int scope)
     for (o = 0; o < nobj; o++) {
         A[o] = vrt_alloc(sizeof(cstl_array_t));
         memset(A[o], 0x7b, sizeof(cstl_array_t));
-        cstl_array_init(A[o]);
+        /* both documented ways of making an array object: the init function and (every other time) the static initialiser */
+        if (++init_toggle & 1) cstl_array_init(A[o]);
+        else *A[o] = (cstl_array_t)CSTL_ARRAY_INITIALIZER((*A[o]));
         V[o].b = -1; V[o].off = V[o].len = 0;
     }
 }
